@@ -293,6 +293,9 @@ def _run_invalid(desc):
     return sh
 
 
+CANCELLING = ((1.0, -0.625, -0.375), (1.0, -1.0, 0.0), (0.0, 0.5, -0.5), (-0.375, 0.25, 0.125), (0.75, 0.0, -0.75), (-1.0, 0.5, 0.5))
+
+
 def _run_detector(desc):
     _, c, nd, tier, mg = desc
     from ImageD11 import transform as tr
@@ -334,6 +337,21 @@ def _run_detector(desc):
         sh.evaluations += len(tth)
         if non >= 2:
             sh.nontrivial += len(tth)
+        # grain positions whose components cancel or repeat (grid scans symmetric about the axis produce them): a position is "no
+        # translation" only when all three components are zero
+        scale = max(abs(pars["t_x"]), abs(pars["t_y"]), abs(pars["t_z"]), 1e-3 * abs(pars["distance"]))
+        tc = CANCELLING[idx % len(CANCELLING)]
+        p2 = dict(p, t_x=tc[0] * scale, t_y=tc[1] * scale, t_z=tc[2] * scale)
+        sub = slice(idx % 3, None, 3)
+        fc2, sc2 = tr.compute_xyz_from_tth_eta(tth[sub], eta[sub], om[sub], **p2)
+        t3, e3 = tr.compute_tth_eta(np.array([sc2, fc2]), omega=om[sub], **p2)
+        dt = np.abs(t3 - tth[sub])
+        de = np.abs((e3 - eta[sub] + 180) % 360 - 180)
+        if not np.isfinite(t3).all() or dt.max() > 1e-8 or (de * np.sin(np.radians(tth[sub]))).max() > 1e-8:
+            i = int(np.argmax(dt + de))
+            sh.violation("detector-round-trip[position components cancel]", {"kind": "detector", "pars": dict(p2, omegasign=osn), "tth": tth[sub][i], "eta": eta[sub][i],
+                                                                           "omega": om[sub][i]}, {"tth_back": t3[i], "eta_back": e3[i]})
+        sh.evaluations += len(t3)
     sh.sample({"kind": "detector", "pars": pars}, limit=1)
     return sh
 
